@@ -10,6 +10,10 @@
 //!   call{h}             handle h .call()
 //!   drop_handle{h}, drop_pkg{m}, drop_rt
 //!   move{h}             handle h is moved to a new thread, called and dropped there
+//!   into_func{h,c}      closure c = handle h .into_func()  (the handle is consumed)
+//!   call_closure{c}, drop_closure{c}
+//! Extra argument `noctx` (default) / `ctx`: with `ctx` the runtime has a context type and
+//! every call passes a context (TypedFunc<Ctx<HostCtx>, _>::call / into_func).
 //! After every step the number of live tracked instances per resource class
 //! (script constants of version 1 / version 2, registered constant, closure
 //! capture) and the call result (if any) are written; the comparison with the
@@ -18,7 +22,7 @@ use std::collections::HashMap;
 use std::sync::Arc;
 use std::sync::atomic::{AtomicI64, AtomicU64, Ordering};
 
-use roto::{FileTree, NoCtx, Package, Runtime, TypedFunc, Val, library};
+use roto::{Context, Ctx, FileTree, NoCtx, Package, Runtime, TypedFunc, Val, library};
 use rvh::batch::{Progress, parse_args, run_batch};
 use serde_json::{Value, json};
 
@@ -111,8 +115,8 @@ impl Drop for Counter {
 /// version 2 only the registered constant (and has two script constants).
 /// The result encodes (sum of script constant tags, registered constant tag,
 /// closure counter or 9999) as k * 10^7 + rc * 10^4 + n (rc < 1000, n < 10^4).
-fn script(v: u64) -> &'static str {
-    match v {
+fn script(v: u64, ctx: bool) -> String {
+    let s = match v {
         1 => {
             r#"
 const K: Tk = mk(0, 11);
@@ -134,7 +138,15 @@ fn main() -> u64 {
 "#
         }
         _ => panic!("unknown script version {v}"),
-    }
+    };
+    // with a context type the script also reads a context field (always 0)
+    if ctx { s.replace("fn main() -> u64 {", "fn main() -> u64 {\n    bias +") } else { s.to_string() }
+}
+
+/// The context type of the `ctx` flavour.
+#[derive(Clone, Context)]
+struct HostCtx {
+    pub bias: u64,
 }
 
 fn build_runtime(g: u64) -> Runtime<NoCtx> {
@@ -156,8 +168,6 @@ fn build_runtime(g: u64) -> Runtime<NoCtx> {
     })
     .expect("registration of the C11 library must succeed")
 }
-
-type Handle = TypedFunc<NoCtx, fn() -> u64>;
 
 fn live() -> Value {
     json!([
@@ -200,87 +210,138 @@ fn safety_net() {
     });
 }
 
+/// The driver, once per flavour: `$call` calls a handle, `$wrap` turns a handle into the
+/// boxed closure made by `into_func`.  The closure is deliberately not required to be
+/// `Send`/`Sync`: only what `into_func` promises (`impl Fn`) is used.
+macro_rules! flavour {
+    ($fname:ident, $ctx:ty, $isctx:expr, $mkrt:expr, |$f:ident| $call:expr, |$g:ident| $wrap:expr) => {
+        fn $fname(args: &rvh::batch::Args) {
+            run_batch(args, |case: &Value, prog: &Progress| -> Value {
+                let base = live();
+                let corrupt0 = CORRUPT.load(Ordering::SeqCst);
+                let mut rt: Option<Runtime<$ctx>> = None;
+                let mut pkgs: HashMap<u64, Package<$ctx>> = HashMap::new();
+                let mut hs: HashMap<u64, TypedFunc<$ctx, fn() -> u64>> = HashMap::new();
+                let mut cls: HashMap<u64, Box<dyn Fn() -> u64>> = HashMap::new();
+                let mut out = vec![];
+                for (k, op) in case["ops"].as_array().unwrap().iter().enumerate() {
+                    prog.step(k as i64);
+                    BEAT.fetch_add(1, Ordering::SeqCst);
+                    let name = op["op"].as_str().unwrap();
+                    let n = |f: &str| op[f].as_u64().unwrap_or_else(|| panic!("op {op} lacks {f}"));
+                    let res: Value = match name {
+                        "build" => {
+                            assert!(rt.is_none(), "harness: runtime already alive");
+                            let mk: fn(u64) -> Runtime<$ctx> = $mkrt;
+                            rt = Some(mk(n("g")));
+                            Value::Null
+                        }
+                        "compile" => {
+                            let r = rt.as_ref().expect("harness: compile without runtime");
+                            let pkg = FileTree::test_file("c11.roto", &script(n("v"), $isctx), 0)
+                                .compile(r)
+                                .map_err(|e| e.to_string())
+                                .expect("C11 script must compile");
+                            assert!(pkgs.insert(n("m"), pkg).is_none(), "harness: package id reused");
+                            Value::Null
+                        }
+                        "get" => {
+                            let pkg = pkgs.get_mut(&n("m")).expect("harness: no such package");
+                            let f = pkg
+                                .get_function::<fn() -> u64>("main")
+                                .expect("main must be retrievable as fn() -> u64");
+                            assert!(hs.insert(n("h"), f).is_none(), "harness: handle slot in use");
+                            Value::Null
+                        }
+                        "clone" => {
+                            let f = hs.get(&n("a")).expect("harness: no such handle").clone();
+                            assert!(hs.insert(n("b"), f).is_none(), "harness: handle slot in use");
+                            Value::Null
+                        }
+                        "call" => {
+                            let $f = hs.get(&n("h")).expect("harness: no such handle");
+                            json!($call)
+                        }
+                        "drop_handle" => {
+                            let f = hs.remove(&n("h")).expect("harness: no such handle");
+                            drop(f);
+                            Value::Null
+                        }
+                        "drop_pkg" => {
+                            let p = pkgs.remove(&n("m")).expect("harness: no such package");
+                            drop(p);
+                            Value::Null
+                        }
+                        "drop_rt" => {
+                            let r = rt.take().expect("harness: no runtime");
+                            drop(r);
+                            Value::Null
+                        }
+                        "move" => {
+                            let f = hs.remove(&n("h")).expect("harness: no such handle");
+                            let t = std::thread::spawn(move || {
+                                let r = {
+                                    let $f = &f;
+                                    $call
+                                };
+                                drop(f);
+                                r
+                            });
+                            match t.join() {
+                                Ok(r) => json!(r),
+                                Err(e) => panic!("thread panicked: {}", rvh::util::panic_message(&e)),
+                            }
+                        }
+                        "into_func" => {
+                            let $g = hs.remove(&n("h")).expect("harness: no such handle");
+                            let c: Box<dyn Fn() -> u64> = $wrap;
+                            assert!(cls.insert(n("c"), c).is_none(), "harness: closure slot in use");
+                            Value::Null
+                        }
+                        "call_closure" => {
+                            let c = cls.get(&n("c")).expect("harness: no such closure");
+                            json!(c())
+                        }
+                        "drop_closure" => {
+                            let c = cls.remove(&n("c")).expect("harness: no such closure");
+                            drop(c);
+                            Value::Null
+                        }
+                        other => panic!("unknown op {other}"),
+                    };
+                    out.push(json!({"res": res, "live": live()}));
+                }
+                // clean-up: closures, handles, then packages, then the runtime
+                cls.clear();
+                hs.clear();
+                pkgs.clear();
+                drop(rt);
+                json!({"steps": out, "base": base, "end_live": live(),
+                       "corrupt": CORRUPT.load(Ordering::SeqCst) - corrupt0})
+            });
+        }
+    };
+}
+
+flavour!(run_noctx, NoCtx, false, build_runtime, |f| f.call(), |g| Box::new(g.into_func()));
+flavour!(
+    run_ctx,
+    Ctx<HostCtx>,
+    true,
+    |g| build_runtime(g).with_context_type::<HostCtx>().expect("context type must register"),
+    |f| f.call(&mut HostCtx { bias: 0 }),
+    |g| {
+        let c = g.into_func();
+        Box::new(move || c(&mut HostCtx { bias: 0 }))
+    }
+);
+
 fn main() {
     let args = parse_args();
     safety_net();
-    run_batch(&args, |case: &Value, prog: &Progress| -> Value {
-        let base = live();
-        let corrupt0 = CORRUPT.load(Ordering::SeqCst);
-        let mut rt: Option<Runtime<NoCtx>> = None;
-        let mut pkgs: HashMap<u64, Package<NoCtx>> = HashMap::new();
-        let mut hs: HashMap<u64, Handle> = HashMap::new();
-        let mut out = vec![];
-        for (k, op) in case["ops"].as_array().unwrap().iter().enumerate() {
-            prog.step(k as i64);
-            BEAT.fetch_add(1, Ordering::SeqCst);
-            let name = op["op"].as_str().unwrap();
-            let n = |f: &str| op[f].as_u64().unwrap_or_else(|| panic!("op {op} lacks {f}"));
-            let res: Value = match name {
-                "build" => {
-                    assert!(rt.is_none(), "harness: runtime already alive");
-                    rt = Some(build_runtime(n("g")));
-                    Value::Null
-                }
-                "compile" => {
-                    let r = rt.as_ref().expect("harness: compile without runtime");
-                    let pkg = FileTree::test_file("c11.roto", script(n("v")), 0)
-                        .compile(r)
-                        .map_err(|e| e.to_string())
-                        .expect("C11 script must compile");
-                    assert!(pkgs.insert(n("m"), pkg).is_none(), "harness: package id reused");
-                    Value::Null
-                }
-                "get" => {
-                    let pkg = pkgs.get_mut(&n("m")).expect("harness: no such package");
-                    let f = pkg.get_function::<fn() -> u64>("main").expect("main must be retrievable as fn() -> u64");
-                    assert!(hs.insert(n("h"), f).is_none(), "harness: handle slot in use");
-                    Value::Null
-                }
-                "clone" => {
-                    let f = hs.get(&n("a")).expect("harness: no such handle").clone();
-                    assert!(hs.insert(n("b"), f).is_none(), "harness: handle slot in use");
-                    Value::Null
-                }
-                "call" => {
-                    let f = hs.get(&n("h")).expect("harness: no such handle");
-                    json!(f.call())
-                }
-                "drop_handle" => {
-                    let f = hs.remove(&n("h")).expect("harness: no such handle");
-                    drop(f);
-                    Value::Null
-                }
-                "drop_pkg" => {
-                    let p = pkgs.remove(&n("m")).expect("harness: no such package");
-                    drop(p);
-                    Value::Null
-                }
-                "drop_rt" => {
-                    let r = rt.take().expect("harness: no runtime");
-                    drop(r);
-                    Value::Null
-                }
-                "move" => {
-                    let f = hs.remove(&n("h")).expect("harness: no such handle");
-                    let t = std::thread::spawn(move || {
-                        let r = f.call();
-                        drop(f);
-                        r
-                    });
-                    match t.join() {
-                        Ok(r) => json!(r),
-                        Err(e) => panic!("thread panicked: {}", rvh::util::panic_message(&e)),
-                    }
-                }
-                other => panic!("unknown op {other}"),
-            };
-            out.push(json!({"res": res, "live": live()}));
-        }
-        // clean-up: handles, then packages, then the runtime
-        hs.clear();
-        pkgs.clear();
-        drop(rt);
-        json!({"steps": out, "base": base, "end_live": live(),
-               "corrupt": CORRUPT.load(Ordering::SeqCst) - corrupt0})
-    });
+    match args.extra.first().map(|s| s.as_str()) {
+        None | Some("noctx") => run_noctx(&args),
+        Some("ctx") => run_ctx(&args),
+        Some(other) => panic!("unknown flavour {other}"),
+    }
 }
